@@ -54,7 +54,7 @@ def cases(tier, seed):
     n_cases = 110 if tier == "quick" else 3000
     for i in range(n_cases):
         b = i % len(BASES)
-        fh = [[1], [1, 2], [1, 2, 3], [2], [1, 3], [1, 2, 3, 4]][int(rng.integers(0, 6))]
+        fh = [[1], [1, 2], [1, 2, 3], [2], [1, 3], [1, 2, 3, 4], [2, 3], [3]][int(rng.integers(0, 8))]
         wl = int(rng.integers(10, 15))
         n = int(rng.integers(wl + max(fh) + 4, 44))
         cvk = ["sliding", "expanding", "single"][int(rng.integers(0, 3))]
@@ -124,7 +124,7 @@ def run_case(case, ctx):
         rng = np.random.default_rng([case["dseed"], 88])
         y = zoo.make_series(rng, case["n"], positive=True, off=case["off"], kind=case["series"], integer=case["dseed"] % 5 == 0)
         # exogenous data go along for the base forecasters that accept them (they ignore the values; the folds must not change)
-        X = pd.DataFrame({"x1": np.arange(len(y)) * 0.5, "x0": rng.normal(0, 1, len(y))}, index=y.index) if (case["base"] in (0, 1, 2) and case["dseed"] % 3 == 0) else None
+        X = pd.DataFrame({"x1": np.arange(len(y)) * 0.5, "x0": rng.normal(0, 1, len(y))}, index=y.index) if (case["base"] in (0, 1, 2) and case["dseed"] % 3 != 2) else None
         if X is not None:
             ctx.tag("with-exogenous-data")
         cv = zoo.build_cv(case["cv"])
@@ -232,6 +232,14 @@ def run_case(case, ctx):
                       expected=expected[:4], candidates=len(candidates))
         else:
             ctx.seen("same-splits", 0)
+        if spec[0] == "spy-naive" and X is not None:
+            # exogenous rows handed to every candidate's predict during the search: from the step after the fold's cutoff to its last test point
+            bad_ev = [ev for ev in spies.log(lid) if ev["op"] == "predict" and ev.get("X_index") is not None and
+                      ev["X_index"] != list(range(ev["cutoff"] + 1, ev["index"][-1] + 1))]
+            ctx.check("same-splits", not bad_ev, "tune:exogenous-rows-for-predict-not-cutoff+1-to-last-test-point",
+                      "a candidate's predict was not given the exogenous rows from the step after the cutoff up to the last test point",
+                      got=(bad_ev[0]["X_index"][:6] if bad_ev else None), cutoff=(bad_ev[0]["cutoff"] if bad_ev else None), asked=(bad_ev[0]["index"] if bad_ev else None))
+            ctx.tag("exogenous-rows-at-predict-checked")
         # ---- refit / delegation -------------------------------------------------------------------------
         if case["refit"]:
             direct = _candidate(spec, spies.new_log(), tuner.best_params_)
